@@ -5,6 +5,9 @@ from __future__ import annotations
 import ast
 
 CONSTRUCTS = {
+    'formfeed_sections': "import os\n\x0c\nNAMES = [\n    'a\tb',\n    'c',\n]\n\x0c\nS = [\n    '''x   \ny''',\n]\nprint(NAMES, S, os.sep)\n",
+    'yield_and_walrus_in_append_loops': 'def gen(xs):\n    out = []\n    for x in xs:\n        out.append((yield x))\n    return out\n\n\ndef walrus(xs):\n    out = []\n    for x in xs:\n        out.append(y := x + 1)\n    return out, y\n\n\ndef gen2(xs):\n    seen = set()\n    for x in xs:\n        seen.add((yield from x))\n    return seen\n\n\nprint(list(gen([1, 2])), walrus([1]), list(gen2([[1], [2]])))\n',
+    'nonlocal_and_global_camel_names': 'totalCount = 0\n\n\ndef outerFn():\n    someValue = 1\n\n    def inner():\n        nonlocal someValue\n        global totalCount\n        someValue += 1\n        totalCount += 1\n        return someValue\n\n    return inner()\n\n\nprint(outerFn(), totalCount)\n',
     'names_without_ascii_letters': 'π = 3.14\n\n\ndef Δ(x):\n    return x\n\n\nclass Ω:\n    pass\n\n\nprint(π, Δ(1), Ω)\n',
     'else_with_blank_before_colon': 'def f(x):\n    if x:\n        return 1\n    else :\n        y = 2\n    return y\n\n\nfor i in range(2):\n    if i:\n        continue\n    else :\n        print(i)\nprint(f(0))\n',
     'typevar_tuple_assignment': "from typing import TypeVar\nT, U = TypeVar('T'), TypeVar('U')\nK = TypeVar('K')\nprint(T, U, K)\n",
